@@ -23,6 +23,22 @@ def run(ctx):
     tpairs.run_tpairs(ctx, "C01", only=lambda t: not ({"TEXIT", "TDELETE", "PAUSE", "UNPAUSE"} & set(t)) and t[3] != "paused")
     n = 16 if ctx.quick else 120
     corelib.run_modes(ctx, "C01", [("core", n), ("flow", n // 2), ("churn", n // 4), ("timing", n // 2)])
+    # a topic nobody has used before, used for the first time by a subscriber and several publishers at the same moment
+    # (fresh names, over and over): what is published once the SUB has been answered reaches the subscriber
+    import json, os
+    fu_rep = os.path.join(ctx.scratch, "first-use.json")
+    rc, out, err = ctx.run_harness(["--first-use", 60 if ctx.quick else 600, "--report", fu_rep,
+                                    "--out", os.path.join(ctx.scratch, "first-use.ndjson"), "--workdir", ctx.scratch],
+                                   timeout=1800, name="ids")
+    if not os.path.exists(fu_rep):
+        raise Inconclusive("first-use scenario (rc %s): %s%s" % (rc, out[-1000:], err[-1000:]))
+    FU = json.load(open(fu_rep))
+    ctx.cov["evaluations"] += FU.get("first_use_rounds", 0)
+    ctx.notes["first_use_rounds"] = FU.get("first_use_rounds", 0)
+    for v in FU.get("violations") or []:
+        ctx.violation("first use of a topic: " + v["what"], ctx.save_replay("first-use", v), key="first-use-lost")
+    if FU.get("inconclusive") and not FU.get("violations"):
+        ctx.notes.setdefault("inconclusive_runs", []).append("first-use: " + FU["inconclusive"])
     # what a consumer leaves unanswered is redelivered on whatever channels there are now: more channels than one scan round
     # takes, channels swapped (one deleted, one created, back to back) between two refreshes of the scanner's list
     corelib.queue_scan(ctx, "C01", 6 if ctx.quick else 40, model=False)
